@@ -85,7 +85,13 @@ TraceCrash ==
   /\ Report(allviol', drift, brs)
   /\ l' = l + 1 /\ UNCHANGED <<vars, drift, brs>>
 
-TraceNext == TraceStart \/ TraceStep \/ TraceCrash
+\* a configuration the parser rejected: nothing ran (the quantifier is "configurations it accepts")
+TraceRejected ==
+  /\ l <= Len(Trace) /\ Line.ev = "rejected"
+  /\ Report(allviol, drift, brs)
+  /\ l' = l + 1 /\ UNCHANGED <<vars, allviol, drift, brs>>
+
+TraceNext == TraceStart \/ TraceStep \/ TraceCrash \/ TraceRejected
 TraceSpec == TraceInit /\ [][TraceNext]_tvars
 
 \* every line was consumed: the diameter counts the initial state plus one state per line 2..Len
